@@ -1,9 +1,13 @@
 (* C04/RSProofs.v — lemmas for the erasure-coded corollaries of C04 (over C13's reconstruct_plan / rs_encode_one
    and C04/RSModel.v's judgements). *)
 From Coq Require Import List NArith ZArith Arith Bool Lia.
-From BLB Require Import Lib.RS Lib.RSProofs C13.Model C13.Props.
+From BLB Require Import Lib.RS C13.Model.
 From BLB Require C04.RSModel.
+(* Only DEFINITIONS of the C13 development are imported here (Lib/RS.v, C13/Model.v): the thorough tier re-checks the
+   closure of the property files with coqchk, which does not use the VM, and the exhaustive GF(256) laws behind the C13
+   proofs do not get through it in any reasonable time.  The corollaries that need those proofs are in PropsRSCodec.v. *)
 Import ListNotations.
+Local Open Scope nat_scope.
 
 Definition dst_of (hosts bad : list N) : list nat :=
   filter (fun i => memN (nth i hosts 0%N) bad) (seq 0 (length hosts)).
@@ -86,4 +90,61 @@ Proof.
   set (l := length _) in *.
   assert (A : Nat.eqb l 0 = false) by (apply Nat.eqb_neq; lia). assert (B : Nat.ltb m l = true) by now apply Nat.ltb_lt.
   now rewrite A, B.
+Qed.
+
+(* ---------- the committed host list (same statement and proof as C13's plan_hosts, re-proved here to keep this file
+   free of the heavy proof closure) ---------- *)
+Lemma set_nth_length' : forall A k (v : A) l, length (set_nth k v l) = length l.
+Proof. induction k; destruct l; simpl; auto. Qed.
+
+Lemma nth_set_nth_same' : forall A k (v d : A) l, k < length l -> nth k (set_nth k v l) d = v.
+Proof. induction k; destruct l; simpl; intros; try lia; [reflexivity | apply IHk; lia]. Qed.
+
+Lemma nth_set_nth_other' : forall A k i (v d : A) l, i <> k -> nth i (set_nth k v l) d = nth i l d.
+Proof.
+  induction k; destruct l; destruct i; simpl; intros; try reflexivity; try lia.
+  apply IHk. lia.
+Qed.
+
+Lemma plan_hosts' : forall (dst : list nat) (ids hosts : list N),
+  NoDup dst -> length ids = length dst -> (forall i, In i dst -> i < length hosts) ->
+  let h' := fold_left (fun h p => set_nth (fst p) (snd p) h) (combine dst ids) hosts in
+  length h' = length hosts /\
+  (forall q, q < length dst -> nth (nth q dst 0) h' 0%N = nth q ids 0%N) /\
+  (forall i, ~ In i dst -> nth i h' 0%N = nth i hosts 0%N).
+Proof.
+  induction dst as [|x dst IH]; intros ids hosts Hnd Hl Hlt; cbv zeta.
+  - simpl. split; [reflexivity|]. split; [intros; lia | reflexivity].
+  - destruct ids as [|id ids]; [discriminate|]. simpl in Hl. inversion Hnd; subst.
+    cbn [combine fold_left fst snd].
+    destruct (IH ids (set_nth x id hosts) H2 ltac:(lia)) as [A [B C]].
+    { intros i Hi. rewrite set_nth_length'. apply Hlt. right. exact Hi. }
+    cbv zeta in A, B, C. rewrite set_nth_length' in A.
+    split; [exact A|]. split.
+    + intros [|q] Hq.
+      * cbn [nth]. rewrite (C x H1). apply nth_set_nth_same'. apply Hlt. left. reflexivity.
+      * cbn [nth]. apply B. simpl in Hq. lia.
+    + intros i Hi. rewrite C by (intro; apply Hi; right; assumption).
+      apply nth_set_nth_other'. intro; apply Hi; left; congruence.
+Qed.
+
+Lemma plan_newids_length : forall n m hosts bad newids p,
+  reconstruct_plan n m hosts bad newids = Some p -> length newids = length (dst_of hosts bad) /\ dst_of hosts bad <> [] /\ n <= length (ok_of hosts bad).
+Proof.
+  intros n m hosts bad newids p H. unfold reconstruct_plan in H. fold (dst_of hosts bad) in H. fold (ok_of hosts bad) in H.
+  destruct (Nat.ltb (length (ok_of hosts bad)) n) eqn:L; [discriminate|]. apply Nat.ltb_ge in L.
+  destruct (dst_of hosts bad) as [|x dst] eqn:D; [discriminate|].
+  destruct (Nat.eqb (length newids) (length (x :: dst))) eqn:E; [|discriminate]. apply Nat.eqb_eq in E.
+  split; [exact E|]. split; [discriminate | exact L].
+Qed.
+
+Lemma plan_commit_exact : forall n m hosts bad newids p,
+  reconstruct_plan n m hosts bad newids = Some p ->
+  length (p_hosts p) = length hosts /\
+  (forall q, q < length (dst_of hosts bad) -> nth (nth q (dst_of hosts bad) 0) (p_hosts p) 0%N = nth q newids 0%N) /\
+  (forall i, ~ In i (dst_of hosts bad) -> nth i (p_hosts p) 0%N = nth i hosts 0%N).
+Proof.
+  intros n m hosts bad newids p H. rewrite (plan_hosts_eq _ _ _ _ _ _ H).
+  destruct (plan_newids_length _ _ _ _ _ _ H) as (L & _ & _).
+  apply plan_hosts'; [apply dst_of_nodup | exact L | apply dst_of_lt].
 Qed.
